@@ -144,6 +144,7 @@ with rawb (bs : branches) : string :=
 Fixpoint ukind (t : uexpr) : string :=
   match t with
   | UCol _ | ULit _ | UPy _ => "leaf"
+  | UExpr e => if bclosed e then "leaf" else "text"
   | UBin o _ _ => if is_arith o then "arith" else if is_logic o then "logic" else "cmp"
   | URBin o _ _ => if is_logic o then "rlogic" else "arith"
   | UNse _ _ => "nse" | UNeg _ => "neg" | UNot _ => "not"
@@ -162,7 +163,7 @@ Definition here (t : uexpr) (ops : list uexpr) : list string :=
   if safe 1 false (build c t) then [] else [cat [ukind t; "("; kinds ops; ")"]].
 Fixpoint culprits (t : uexpr) : list string :=
   match t with
-  | UCol _ | ULit _ | UPy _ => []
+  | UCol _ | ULit _ | UPy _ | UExpr _ => []
   | UBin _ a b | UNse a b | UStartsWith a b | UEndsWith a b | UGetItemCol a b =>
       culprits a ++ culprits b ++ here t [a; b]
   | URBin _ _ a | UNeg a | UNot a | UIsNull a | UIsNotNull a | UIsin a _ | ULike a _ | UILike a _
@@ -184,7 +185,7 @@ Definition b01 (b : bool) : string := if b then "1" else "0".
 (** node kinds at which the engine's and Spark's primitive differ on this row (see Build.agree) *)
 Fixpoint disagree (en : env) (t : uexpr) : list string :=
   match t with
-  | UCol _ | ULit _ | UPy _ => []
+  | UCol _ | ULit _ | UPy _ | UExpr _ => []
   | UBin _ a b | UNse a b | UStartsWith a b | UEndsWith a b | UGetItemCol a b => disagree en a ++ disagree en b
   | URBin _ _ a | UNeg a | UNot a | UIsNull a | UIsNotNull a | UIsin a _ | ULike a _ | UILike a _
   | URlike a _ | UAlias a _ | UGetItemLit a _ => disagree en a
